@@ -16,7 +16,8 @@ From Coq Require Import NArith ZArith Reals List.
 From Flocq Require Import Core.Raux.
 From Coq Require Import Floats.
 From DS Require Import Base.Prelude Base.FloatBits Base.FloatLemmas Model.Bounds Model.HllEst Proofs.BoundsFloat Proofs.BoundsProofs Proofs.BoundsCeil
-  Proofs.CouponSweepDefs Proofs.CouponSweep Model.Composite Proofs.CompositeProofs Proofs.RefTablesMatch.
+  Proofs.CouponSweepDefs Proofs.CouponSweep Model.Composite Proofs.CompositeProofs Proofs.RefTablesMatch Proofs.Martingale.
+From Coq Require Import QArith.
 From DS Require Spec.RefTables Gen.GenBoundsHll Gen.GenBoundsComposite Gen.GenBoundsCpc Gen.GenBoundsTheta Gen.GenHll.
 Open Scope N_scope.
 
@@ -178,6 +179,16 @@ Proof.
           | exact ref_GenBoundsTheta_LB_EQUIV_TABLE | exact ref_GenBoundsTheta_UB_EQUIV_TABLE
           | exact ref_GenBoundsTheta_DELTA_OF_NUM_STD_DEVS ].
 Qed.
+
+(* ---- statistical half, IDEALISED model only (uniform hashing; exact rationals; nothing about rounding or a real hash):
+        the HIP update rules  hip += k / kxq  (HLL, before the registers move) and  hip += k / kxp  (CPC) have expected
+        increment exactly 1 per distinct item in every state, i.e. the accumulator is an unbiased martingale ---- *)
+Theorem c01_hll_hip_martingale_idealised : forall rs : list nat, rs <> nil -> (expected_hip_increment rs == 1)%Q.
+Proof. exact hll_hip_martingale. Qed.
+
+Theorem c01_cpc_hip_martingale_idealised :
+  forall (k : Q) (cols : list nat), (0 < k)%Q -> cols <> nil -> (expected_cpc_increment k cols == 1)%Q.
+Proof. exact cpc_hip_martingale. Qed.
 
 (* non-vacuity: concrete bounds of an lg_k = 12 HLL sketch and an lg_k = 11 CPC sketch (1000 coupons, HIP 1003.7) *)
 Example c01_example :
